@@ -14,6 +14,10 @@ import (
 
 func init() {
 	register(&PropertyCheck{ID: "C09", Level: "other", Run: checkC09, Canaries: []Canary{
+		{Name: "high-identifiers-skipped-as-vendor-extensions", Rule: "R9.5", Where: "ConnAck#undefined-identifiers", Edits: []Edit{{"buffer.go", "\t\tdefault:\n\t\t\tb.err = fmt.Errorf(\"unknown property id 0x%02x\", id)", "\t\tdefault:\n\t\t\tif id >= 0x80 {\n\t\t\t\tvar ext bindata\n\t\t\t\tb.get(&ext)\n\t\t\t\tcontinue\n\t\t\t}\n\t\t\tb.err = fmt.Errorf(\"unknown property id 0x%02x\", id)"}}},
+		{Name: "payload-stage-with-its-own-reader-and-dropped-error", Rule: "R9.2", Where: "(*Unsubscribe).UnmarshalBinary#dropped-error", Edits: []Edit{
+			{"unsubscribe.go", "\tb.getAny(nil, p.appendUserProperty)\n\n\tfor {", "\tb.getAny(nil, p.appendUserProperty)\n\tif b.err == nil {\n\t\tp.unmarshalPayload(data[b.i:])\n\t}\n\treturn b.err\n}\n\nfunc (p *Unsubscribe) unmarshalPayload(data []byte) error {\n\tb := &buffer{data: data}\n\tfor {"},
+			{"unsubscribe.go", "\t\tif b.i == len(data) {\n\t\t\tbreak\n\t\t}", "\t\tif b.atEnd() {\n\t\t\tbreak\n\t\t}"}}},
 		{Name: "boolean-property-kept-in-a-byte-field", Rule: "R9.4", Where: "Publish#boolean-properties", Edits: []Edit{
 			{"publish.go", "\tpayloadFormat wbool", "\tpayloadFormat wuint8"},
 			{"publish.go", "func (p *Publish) SetPayloadFormat(v bool) { p.payloadFormat = wbool(v) }\nfunc (p *Publish) PayloadFormat() bool     { return bool(p.payloadFormat) }", "func (p *Publish) SetPayloadFormat(v bool) {\n\tp.payloadFormat = 0\n\tif v {\n\t\tp.payloadFormat = 1\n\t}\n}\nfunc (p *Publish) PayloadFormat() bool { return p.payloadFormat == 1 }"}}},
@@ -184,6 +188,79 @@ func checkC09(p *Prog, c *Check) {
 
 	// R9.5
 	checkPropertyLoop(p, c, cur, scope)
+	// … and by evaluation: ReadPacket on a frame whose only property carries an identifier MQTT v5.0 does not
+	// define, followed by bytes that any decoder would accept, for all 229 such identifiers
+	{
+		base := map[string]sv{}
+		specPairMem(base)
+		codeOf := map[string]int64{}
+		for k, n := range specPacketTypes {
+			codeOf[n] = k
+		}
+		defined := map[int64]bool{}
+		for _, sp := range specProps {
+			defined[sp.ID] = true
+		}
+		byt := func(name string, v int64) wireToken { return wireToken{"byte", 1, sv{k: 'i', i: v}, name} }
+		nev := 0
+		tns := []string{"ConnAck"}
+		if thoroughMode {
+			tns = []string{"ConnAck", "Disconnect", "Publish"}
+		}
+		for _, tn := range tns {
+			if p.Method(tn, "UnmarshalBinary") == nil {
+				continue
+			}
+			var pre []wireToken
+			switch tn {
+			case "ConnAck":
+				pre = []wireToken{byt("acknowledge flags", 0), byt("reason code", 0)}
+			case "Disconnect":
+				pre = []wireToken{byt("reason code", 0)}
+			case "Publish":
+				t, _ := strTok("topic", 5)
+				pre = []wireToken{t}
+			}
+			bad, unk := "", ""
+			for id := int64(0); id < 256 && bad == "" && unk == ""; id++ {
+				if defined[id] {
+					continue
+				}
+				// followed by 1..4 bytes that whatever decoder is tried takes as one value of exactly that width
+				for w := int64(1); w <= 4 && bad == "" && unk == ""; w++ {
+					toks := append(append([]wireToken(nil), pre...),
+						wireToken{"vbi", 1, sv{k: 'i', i: 1 + w}, "property length"},
+						wireToken{"ident", 1, sv{k: 'i', i: id}, fmt.Sprintf("undefined identifier %#02x", id)},
+						wireToken{"any", w, sv{}, "bytes after the undefined identifier"})
+					var total int64
+					for _, t := range toks {
+						total += t.Width
+					}
+					r := p.decoderReplay(tn, sv{k: 'i', i: codeOf[tn] | specReservedBits[tn]}, toks, total, base)
+					nev++
+					switch {
+					case r.Why != "":
+						unk = fmt.Sprintf("identifier %#02x: cannot evaluate ReadPacket: %s", id, r.Why)
+					case r.Err.k == 'z':
+						bad = fmt.Sprintf("a frame whose property section carries the undefined identifier %#02x is accepted", id)
+						if r.AnyConsumedBy != "" {
+							bad += " (the " + fmt.Sprint(w) + " byte(s) after it are read as a " + r.AnyConsumedBy + ")"
+						}
+					}
+				}
+			}
+			cons := tn + "#undefined-identifiers"
+			switch {
+			case unk != "":
+				c.Unk("R9.5", cons, "-", unk)
+			case bad != "":
+				c.Bad("R9.5", cons, "-", bad)
+			default:
+				c.OK("R9.5", cons, "-", "ReadPacket rejects the frame for each of the 229 identifiers the specification does not define")
+			}
+		}
+		c.Measured["undefined_identifier_frames"] = nev
+	}
 }
 
 // R9.1
@@ -403,6 +480,61 @@ func checkStickyResult(p *Prog, c *Check, cur *Cursor) {
 			c.OK("R9.2", cons, p.Pos(fn.Pos()), how)
 		}
 	}
+	// no stage of a decoder may have its verdict thrown away: in every function reachable from a packet decoder, the
+	// error result of a call to another mq function is used (returned, tested, stored) — a helper that runs its own
+	// reader over part of the body and whose error is dropped accepts what that reader rejected
+	{
+		ndrop, ncalls := 0, 0
+		for _, fn := range sortedFuncs(p.Reach(pk)) {
+			if fn.Blocks == nil || !p.inMQ(fn) {
+				continue
+			}
+			for _, b := range fn.Blocks {
+				for _, ins := range b.Instrs {
+					call, ok := ins.(*ssa.Call)
+					if !ok {
+						continue
+					}
+					sc := call.Call.StaticCallee()
+					if sc == nil || sc.Blocks == nil || !p.inMQ(sc) {
+						continue
+					}
+					k := errorResultIndex(sc.Signature)
+					if k < 0 {
+						continue
+					}
+					ncalls++
+					used := false
+					if refs := call.Referrers(); refs != nil {
+						for _, r := range *refs {
+							switch x := r.(type) {
+							case *ssa.DebugRef:
+							case *ssa.Extract:
+								if x.Index == k && x.Referrers() != nil {
+									for _, r2 := range *x.Referrers() {
+										if _, isD := r2.(*ssa.DebugRef); !isD {
+											used = true
+										}
+									}
+								}
+							default:
+								if sc.Signature.Results().Len() == 1 {
+									used = true
+								}
+							}
+						}
+					}
+					if !used {
+						ndrop++
+						c.Bad("R9.2", fmt.Sprintf("%s#dropped-error%d", qname(fn), ndrop), posOf(p, call), "the error returned by "+qname(sc)+" is discarded: a rejection inside that stage of the decoder is lost")
+					}
+				}
+			}
+		}
+		if ndrop == 0 {
+			c.OK("R9.2", "decoder stages", "-", fmt.Sprintf("%d call(s) of error-returning mq functions on the decoders' call trees, every error result is used", ncalls))
+		}
+	}
 	c.Measured["packet_decoders"] = len(pk)
 	c.Floor("packet decoders", len(pk), 15, "15 MQTT packet types")
 	// ReadPacket's tree: the content error is examined and turned into (nil, err)
@@ -520,6 +652,15 @@ func checkVBIDecoder(p *Prog, c *Check, fn *ssa.Function) bool {
 	}
 	_ = why
 	errIdx := errorResultIndex(fn.Signature)
+	// a return can be a success unless its error result is provably non-nil there (a variable that was just cleared
+	// — `if err == io.EOF { err = nil }` — is not)
+	vpr := NewProver(p, fn)
+	maySucceed := func(r *ssa.Return) bool {
+		if errIdx < 0 || errIdx >= len(r.Results) || isNilConst(r.Results[errIdx]) {
+			return true
+		}
+		return !vpr.NonNil(r.Results[errIdx], r.Block(), 0)
+	}
 	// guard on every cycle
 	if g.Guard != nil && (g.B != 128*128*128 || g.R != 128) {
 		c.Bad("R9.3", cons+"#size-guard", posOf(p, g.Guard), fmt.Sprintf("the size guard leaves once the multiplier exceeds %d (radix %d); a fifth byte is reached at 128³ = 2097152 with radix 128: longer integers are accepted", g.B, g.R))
@@ -530,7 +671,7 @@ func checkVBIDecoder(p *Prog, c *Check, fn *ssa.Function) bool {
 	} else {
 		okG := true
 		for _, r := range returnsReachable(g.Guard.Block().Succs[0]) {
-			if errIdx < 0 || isNilConst(r.Results[errIdx]) {
+			if maySucceed(r) {
 				okG = false
 			}
 		}
@@ -546,7 +687,7 @@ func checkVBIDecoder(p *Prog, c *Check, fn *ssa.Function) bool {
 	for _, e := range lp.ExitEdges() {
 		succ := false
 		for _, r := range returnsReachable(e.to) {
-			if errIdx < 0 || isNilConst(r.Results[errIdx]) {
+			if maySucceed(r) {
 				succ = true
 			}
 		}
@@ -667,7 +808,7 @@ func checkVBIDecoder(p *Prog, c *Check, fn *ssa.Function) bool {
 			if !ok || errIdx < 0 || errIdx >= len(ret.Results) {
 				continue
 			}
-			if isNilConst(ret.Results[errIdx]) {
+			if maySucceed(ret) {
 				if !header.Dominates(b) && bad == "" {
 					bad = "a successful return at " + posOf(p, ret) + " does not lie behind the decoding loop: a second decoding path"
 				}
